@@ -184,6 +184,31 @@ def entry_operators(P, app, sid, cols, rng_, clauses, variant=0):
         return list(seq.keys()), [tuple(r) for r in seq.iterdata()]
 
 
+def entry_column(P, app, sid, col, rng_, clauses, variant=0):
+    """the same selection built on ONE column of the opened sequence: `seq[c]`, then `col[seq.x OP v]` per clause and
+    `col[a:b:k]`, in an order picked by `variant`; read by iterating the column (oracle only: the request text of this
+    path is C14's model)"""
+    import functools
+    with warnings.catch_warnings():
+        warnings.simplefilter("ignore")
+        ds = P["open_url"]("http://localhost/d", application=app)
+        base = ds[sid]
+        c = base[col]
+        steps = []
+        for (c1, opsym, (kind, x)) in [rc for (_, _, _, rc) in clauses]:
+            steps.append(("f", c1, opsym, kind, x))
+        if rng_ is not None:
+            steps.insert((variant * 7) % (len(steps) + 1), ("s",))
+        for st in steps:
+            if st[0] == "s":
+                c = c[slice(rng_[0], rng_[2] + 1, rng_[1])]
+            else:
+                rhs = base[st[4]] if st[3] == "name" else st[4]
+                c = c[OPS[st[2]][1](base[st[1]], rhs)]
+        P["_url"] = None
+        return [col], [((v.item() if hasattr(v, "item") else v),) for v in c]
+
+
 def entry_mixed(P, app, sid, cols, rng_, clauses, variant=0):
     """part of the conjunction in the URL (`open_url(url?sid&clause…)`), the rest built with the operators on the opened
     sequence; returns the derived rows and what the opened sequence itself reads before and after the derivation"""
@@ -232,10 +257,14 @@ def check_case(ctx, P, backend, names, kinds, rows, cols, rng_, clauses, cases, 
             "ce": ce}
     size = len(rows) * 10 + len(names) + 20 * len(cl) + (5 if rng_ else 0) + (3 * len(cols) if cols else 0)
     variant = (len(rows) + 2 * len(names) + 3 * len(cl) + (rng_[0] if rng_ else 0)) % 6
+    if cols is not None and len(cols) == 1 and "operators" in entries:
+        entries = list(entries) + ["column"]
     for entry in entries:
         P["_url"] = P["_ops"] = None
         try:
-            if entry == "raw":
+            if entry == "column":
+                got_cols, got = entry_column(P, app, sid, cols[0], rng_, cl, variant)
+            elif entry == "raw":
                 got_cols, got = entry_raw(P, app, sid, ce, dict(zip(names, kinds)))
             elif entry == "open_url":
                 got_cols, got = entry_open_url(P, app, sid, ce)
